@@ -1,0 +1,58 @@
+//go:build verif
+
+// Verification hooks (build tag "verif") for the accounting property. Add-only: thin exported
+// wrappers around unexported functions and state; no behaviour change.
+
+package metrics
+
+import (
+	"time"
+
+	pb "github.com/enfein/mieru/v3/pkg/metrics/metricspb"
+)
+
+// VerifConstsC19 exports the roll-up constants.
+func VerifConstsC19() map[string]int64 {
+	return map[string]int64{
+		"rollUpInterval":         rollUpInterval,
+		"rollUpToSecondNs":       int64(rollUpToSecond),
+		"rollUpSecondToMinuteNs": int64(rollUpSecondToMinute),
+		"rollUpMinuteToHourNs":   int64(rollUpMinuteToHour),
+		"rollUpHourToDayNs":      int64(rollUpHourToDay),
+	}
+}
+
+// VerifNewCounter creates a counter that is not registered anywhere.
+func VerifNewCounter(name string, timeSeries bool) *Counter {
+	return &Counter{name: name, timeSeries: timeSeries}
+}
+
+// VerifAddWithTime is addWithTime.
+func (c *Counter) VerifAddWithTime(delta int64, t time.Time) int64 { return c.addWithTime(delta, t) }
+
+// VerifHistoryEntry is one history entry as plain values.
+type VerifHistoryEntry struct {
+	TimeUnixMilli int64
+	Delta         int64
+	RollUp        int32
+}
+
+// VerifSnapshot returns value, operation count and history without counting as an operation.
+func (c *Counter) VerifSnapshot() (value int64, op uint64, history []VerifHistoryEntry) {
+	c.mu.Lock()
+	defer c.mu.Unlock()
+	for _, h := range c.history {
+		history = append(history, VerifHistoryEntry{h.GetTimeUnixMilli(), h.GetDelta(), int32(h.GetRollUp())})
+	}
+	return c.value, c.op, history
+}
+
+// VerifDoRollUp runs one doRollUp pass with the given parameters.
+func (c *Counter) VerifDoRollUp(fromLabel, toLabel int32, rollUpDuration, truncateDuration time.Duration) {
+	c.mu.Lock()
+	defer c.mu.Unlock()
+	c.doRollUp(pb.RollUpLabel(fromLabel), pb.RollUpLabel(toLabel), rollUpDuration, truncateDuration)
+}
+
+// VerifLoadCounterFromMetricPB is loadCounterFromMetricPB.
+func VerifLoadCounterFromMetricPB(dst *Counter, src *pb.Metric) { loadCounterFromMetricPB(dst, src) }
